@@ -121,7 +121,11 @@ func (x *fx) execute(loopWrites map[int]*loopInfo) {
 			x.assume("(> (p-ref " + x.vals[p].S + ") 0)")
 			// the cell of a captured local variable is never the cell of a
 			// package-level variable (those have the references 1000000..1999999)
-			x.assume("(or (< (p-ref " + x.vals[p].S + ") 1000000) (>= (p-ref " + x.vals[p].S + ") 2000000))")
+			// (int mode only: the bit-vector queries are the slow ones, and no contract
+			// in that mode compares a captured variable with a package-level one)
+			if x.mode != ModeBV {
+				x.assume("(or (< (p-ref " + x.vals[p].S + ") 1000000) (>= (p-ref " + x.vals[p].S + ") 2000000))")
+			}
 		}
 	}
 	if !x.c.MayAlias && len(sliceParams) > 1 {
